@@ -401,12 +401,12 @@ fn request_for(q: &Q) -> RequestMessage<Vec<u8>> {
 }
 
 /// Reply variants a scripted peer can produce for a request (id, q).
-/// G good, T good+TC, U good with upper-case name, X good + one answer record,
+/// G good, T good+TC, K good+TC with an answer record, U good with upper-case name, X good + one answer record,
 /// E error rcode with the question, H header-only error  -- these answer;
 /// I other ID, Q QR clear, N other name, Y other type, Z header-only NOERROR,
 /// W two questions, B unparsable question, S shorter than a header -- these do not.
-const VARIANTS: &[u8] = b"GTUXEHIQNYZWBS";
-fn variant_answers(v: u8) -> bool { b"GTUXEH".contains(&v) }
+const VARIANTS: &[u8] = b"GTKUXEHIQNYZWBS";
+fn variant_answers(v: u8) -> bool { b"GTKUXEH".contains(&v) }
 
 fn reply(v: u8, id: u16, q: &Q, aa: bool) -> Vec<u8> {
     let qw = q_wire(q);
@@ -414,6 +414,7 @@ fn reply(v: u8, id: u16, q: &Q, aa: bool) -> Vec<u8> {
         b'G' => mk_msg(id, true, false, aa, 0, [1, 0, 0, 0], &qw),
         b'T' => mk_msg(id, true, true, aa, 0, [1, 0, 0, 0], &qw),
         b'U' => { let mut u = q.clone(); u.name = u.name.iter().map(|b| b.to_ascii_uppercase()).collect(); mk_msg(id, true, false, aa, 0, [1, 0, 0, 0], &q_wire(&u)) }
+        b'K' => { let mut b = qw.clone(); b.extend_from_slice(&[0xc0, 12, 0, 1, 0, 1, 0, 0, 0, 60, 0, 4, 192, 0, 2, 1]); mk_msg(id, true, true, aa, 0, [1, 1, 0, 0], &b) }
         b'X' => { let mut b = qw.clone(); b.extend_from_slice(&[0xc0, 12, 0, 1, 0, 1, 0, 0, 0, 60, 0, 4, 192, 0, 2, 1]); mk_msg(id, true, false, aa, 0, [1, 1, 0, 0], &b) }
         b'E' => mk_msg(id, true, false, aa, 3, [1, 0, 0, 0], &qw),
         b'H' => mk_msg(id, true, false, aa, 2, [0, 0, 0, 0], &[]),
@@ -624,7 +625,7 @@ fn gen_attempt(r: &mut Rng, timeout: u64) -> Attempt {
     let n = match r.below(6) { 0 => 0, 1 | 2 => 1, 3 => 2, _ => r.range(2, 5) };
     let mut pkts: Vec<Pkt> = (0..n).map(|_| {
         let off = match r.below(8) { 0 => timeout, 1 => timeout - 1, 2 => timeout + 1, 3 => 0, 4 => timeout + r.below(timeout), _ => r.below(timeout) };
-        let v = match r.below(12) { 0 | 1 => b'G', 2 => b'P', 3 => if r.chance(1, 4) { b'R' } else { b'T' }, _ => *r.pick(VARIANTS) };
+        let v = match r.below(12) { 0 | 1 => b'G', 2 => b'P', 3 => if r.chance(1, 4) { b'R' } else { *r.pick(b"TK") }, _ => *r.pick(VARIANTS) };
         Pkt { off, v }
     }).collect();
     pkts.sort_by_key(|p| p.off);
@@ -1056,6 +1057,145 @@ fn part_stream(out: &mut Out, r: &mut Rng, a: &Args) -> (u64, u64) {
     (okd, errd)
 }
 
+// ===================================================================== part 3b'
+// T2 for the demultiplexer: deterministic scripts against the real
+// stream::Connection, compared with the event machine of the model.  Every
+// step is followed by a run of yields (no timers involved: the response timeout
+// is 10 s), so each event is fully processed before the next one is issued.
+
+async fn quiesce() { for _ in 0..64 { tokio::task::yield_now().await; } }
+
+/// (id, qr, rcode, qd, an, tc, question tokens) of reply variant v to the request
+/// (id, question of caller k); None = not a DNS message (reader fails).
+fn variant_fields(v: u8, id: u16, k: usize) -> Option<(u16, u8, u8, u8, u8, u8, String)> {
+    let kq = format!("{}", k);
+    Some(match v {
+        b'G' | b'U' => (id, 1, 0, 1, 0, 0, kq), b'T' => (id, 1, 0, 1, 0, 1, kq), b'K' => (id, 1, 0, 1, 1, 1, kq),
+        b'X' => (id, 1, 0, 1, 1, 0, kq), b'E' => (id, 1, 3, 1, 0, 0, kq), b'H' => (id, 1, 2, 0, 0, 0, "-".into()),
+        b'I' => (id.wrapping_add(1), 1, 0, 1, 0, 0, kq), b'Q' => (id, 0, 0, 1, 0, 0, kq),
+        b'N' => (id, 1, 0, 1, 0, 0, "900".into()), b'Y' => (id, 1, 0, 1, 0, 0, format!("{}", 1000 + k)),
+        b'Z' => (id, 1, 0, 0, 0, 0, "-".into()), b'W' => (id, 1, 0, 2, 0, 0, format!("{},900", k)),
+        b'B' => (id, 1, 0, 1, 0, 0, "bad".into()),
+        _ => return None,
+    })
+}
+
+async fn run_demux_script(ncallers: usize, idle_zero: bool, steps: Vec<Step>) -> (String, String) {
+    let (client, server) = tokio::io::duplex(1 << 16);
+    let mut cfg = stream::Config::new();
+    cfg.set_response_timeout(Duration::from_secs(10));
+    cfg.set_idle_timeout(if idle_zero { Duration::ZERO } else { Duration::from_secs(100) });
+    let (conn, transport) = stream::Connection::<RequestMessage<Vec<u8>>, RequestMessageMulti<Vec<u8>>>::with_config(client, cfg);
+    let th = tokio::spawn(transport.run());
+    let (rd, mut wr) = tokio::io::split(server);
+    let seen: Seen = Arc::new(Mutex::new(vec![]));
+    let ph = tokio::spawn(peer_reader(rd, seen.clone()));
+    let results: Results = Arc::new(Mutex::new(vec![None; ncallers]));
+    let order: Arc<Mutex<Vec<usize>>> = Arc::new(Mutex::new(vec![]));
+    let mut callers = Vec::new();
+    let mut submitted: Vec<usize> = Vec::new();
+    let mut evs: Vec<String> = Vec::new();
+    let mut wr_open = true;
+    for s in &steps {
+        match s {
+            Step::Submit(k) => {
+                let k = *k;
+                let mut g = SendRequest::send_request(&conn, request_for(&question(k)));
+                let (results, order) = (results.clone(), order.clone());
+                callers.push(tokio::spawn(async move {
+                    let r = g.get_response().await;
+                    order.lock().unwrap().push(k);
+                    results.lock().unwrap()[k] = Some(r.map(|m| m.as_slice().to_vec()).map_err(|e| err_class(&e)));
+                }));
+                submitted.push(k);
+                evs.push(format!("s{}", k));
+            }
+            Step::Reply(k, v) => if wr_open { if let Some(id) = wire_id(&seen, *k) {
+                wr_open = frame(&mut wr, &reply(*v, id, &question(*k), false)).await;
+                match variant_fields(*v, id, *k) {
+                    Some((i, qr, rc, qd, an, tc, qs)) => evs.push(format!("p{}:{}:{}:{}:{}:{}:{}", i, qr, rc, qd, an, tc, qs)),
+                    None => evs.push("f".into()),
+                }
+            } },
+            Step::Cross(a, b) => if wr_open { if let Some(id) = wire_id(&seen, *a) {
+                wr_open = frame(&mut wr, &reply(b'G', id, &question(*b), false)).await;
+                evs.push(format!("p{}:1:0:1:0:0:{}", id, b));
+            } },
+            Step::Junk => if wr_open { wr_open = frame(&mut wr, &reply(b'G', 0x7777, &question(99), false)).await; evs.push(format!("p{}:1:0:1:0:0:99", 0x7777)); },
+            Step::ShortFrame => if wr_open { wr_open = frame(&mut wr, &[1, 2, 3]).await; evs.push("f".into()); },
+            Step::PartialFrame => if wr_open { let _ = wr.write_all(&[0, 100, 1, 2, 3, 4]).await; let _ = wr.shutdown().await; wr_open = false; evs.push("f".into()); },
+            Step::Close => if wr_open { let _ = wr.shutdown().await; wr_open = false; evs.push("f".into()); },
+            _ => {}
+        }
+        quiesce().await;
+    }
+    if wr_open { let _ = wr.shutdown().await; evs.push("f".into()); quiesce().await; }
+    let res = results.lock().unwrap().clone();
+    let ord = order.lock().unwrap().clone();
+    let cls: Vec<String> = submitted.iter().map(|k| {
+        let wire = wire_id(&seen, *k).map_or("-".to_string(), |i| i.to_string());
+        let r = match &res[*k] {
+            None => "P".to_string(),
+            Some(Ok(m)) => { let h = parse_hdr(m).unwrap(); format!("A{}.{}.{}", h.rcode, h.an, h.tc as u8) }
+            Some(Err(c)) if c == "wrong_reply" => "W".to_string(),
+            Some(Err(_)) => "E".to_string(),
+        };
+        format!("{}={}@{}", k, r, wire)
+    }).collect();
+    drop(conn);
+    for c in callers { c.abort(); }
+    ph.abort(); th.abort();
+    let case = format!("sm {} {}", idle_zero as u8, evs.join(" "));
+    let obs = format!("{} | {}", if ord.is_empty() { "-".to_string() } else { ord.iter().map(|k| k.to_string()).collect::<Vec<_>>().join(",") }, cls.join(" "));
+    (case, obs)
+}
+
+fn gen_demux_script(r: &mut Rng) -> (usize, bool, Vec<Step>) {
+    let n = r.range(1, 6) as usize;
+    let idle_zero = r.chance(1, 4);
+    let mut steps = Vec::new();
+    let mut submitted = 0usize;
+    for _ in 0..r.range(2, 14) {
+        let x = r.below(14);
+        if submitted == 0 || (x < 4 && submitted < n) { steps.push(Step::Submit(submitted)); submitted += 1; continue; }
+        let k = r.below(submitted as u64) as usize;
+        match x {
+            0..=6 => steps.push(Step::Reply(k, b'G')),
+            7 | 8 => steps.push(Step::Reply(k, *r.pick(VARIANTS))),
+            9 | 10 => { if submitted > 1 { let b = (k + 1 + r.below(submitted as u64 - 1) as usize) % submitted; steps.push(Step::Cross(k, b)); } else { steps.push(Step::Junk); } }
+            11 => steps.push(Step::Junk),
+            12 => steps.push(r.pick(&[Step::Close, Step::ShortFrame, Step::PartialFrame]).clone()),
+            _ => { steps.push(Step::Reply(k, b'G')); steps.push(Step::Reply(k, b'G')); }
+        }
+    }
+    (n, idle_zero, steps)
+}
+
+fn part_demux(out: &mut Out, r: &mut Rng, a: &Args) {
+    let rt = tokio::runtime::Builder::new_current_thread().enable_all().build().unwrap();
+    let n = if a.thorough { 20_000 } else { 2_000 } * a.scale;
+    let mut scripts: Vec<(usize, bool, Vec<Step>)> = vec![
+        (2, false, vec![Step::Submit(0), Step::Reply(0, b'G'), Step::Submit(1), Step::Reply(0, b'G'), Step::Reply(1, b'G')]),
+        (3, false, vec![Step::Submit(0), Step::Submit(1), Step::Submit(2), Step::Cross(0, 1), Step::Cross(1, 2), Step::Reply(2, b'G')]),
+        (3, false, vec![Step::Submit(0), Step::Submit(1), Step::Submit(2), Step::Reply(1, b'G'), Step::Reply(0, b'G'), Step::Close]),
+        (2, true, vec![Step::Submit(0), Step::Reply(0, b'G'), Step::Submit(1)]),
+        (2, true, vec![Step::Submit(0), Step::Submit(1), Step::Reply(0, b'H'), Step::Reply(1, b'Z'), Step::Junk, Step::Reply(1, b'E'), Step::Submit(0)]),
+        (3, false, vec![Step::Submit(0), Step::Submit(1), Step::Reply(0, b'S'), Step::Submit(2)]),
+        (4, false, vec![Step::Submit(0), Step::Submit(1), Step::Submit(2), Step::Reply(1, b'G'), Step::Submit(3), Step::Reply(1, b'G'), Step::Reply(3, b'I'), Step::PartialFrame]),
+    ];
+    for _ in 0..n { scripts.push(gen_demux_script(r)); }
+    for (nc, iz, steps) in scripts {
+        out.begin("demux script");
+        // caller numbers must be unique per script: the corpus re-submits on purpose only in the model-free part
+        let mut seen_k = std::collections::HashSet::new();
+        let steps: Vec<Step> = steps.into_iter().filter(|s| match s { Step::Submit(k) => seen_k.insert(*k), _ => true }).collect();
+        let (case, obs) = rt.block_on(async { tokio::spawn(run_demux_script(nc.max(4), iz, steps)).await.unwrap_or(("sm 0".into(), "Panic".into())) });
+        out.check(obs != "Panic", "panic_transport", &case, "the demux script task panicked");
+        out.check(!obs.contains("=P@"), "never_completes", &case, "a caller was still pending after the connection was closed");
+        out.case(&case, &obs, case.matches(" p").count() >= 1, "demux");
+    }
+}
+
 // ===================================================================== part 3c
 // dgram_stream (UDP first, stream on truncation), redundant and load_balancer
 // over the mocks; paused clock.
@@ -1129,14 +1269,15 @@ fn part_dgram_stream(out: &mut Out, r: &mut Rng, a: &Args) {
     for k in 0..n {
         let retries = r.below(2) as u8;
         let timeout = 50u64;
-        let tcp_mode = if k < 4 { b"GWCN"[k as usize] } else { *r.pick(b"GGGGGWCN") };
+        let tcp_mode = if k < 8 { b"GWCN"[(k % 4) as usize] } else { *r.pick(b"GGGGGWCN") };
         let mut attempts: Vec<Attempt> = (0..retries as usize + 1).map(|_| {
             let mut pk = Vec::new();
             if r.chance(1, 3) { pk.push(Pkt { off: r.below(20), v: *r.pick(b"INQSBZ") }); }
-            if r.chance(5, 6) { pk.push(Pkt { off: 20 + r.below(25), v: if r.chance(2, 3) { b'T' } else { *r.pick(b"GHEX") } }); }
+            if r.chance(5, 6) { pk.push(Pkt { off: 20 + r.below(25), v: if r.chance(2, 3) { *r.pick(b"TK") } else { *r.pick(b"GHEX") } }); }
             Attempt { fault: b'-', pkts: pk }
         }).collect();
-        if k < 4 { attempts = vec![Attempt { fault: b'-', pkts: vec![Pkt { off: 5, v: b'T' }] }]; }
+        // fixed: a truncated answer, without and with answer records, against each stream peer
+        if k < 8 { attempts = vec![Attempt { fault: b'-', pkts: vec![Pkt { off: 5, v: if k < 4 { b'T' } else { b'K' } }] }]; }
         let case = format!("dgram_stream retries={} tcp={} {}", retries, tcp_mode as char, attempts.iter().map(attempt_tok).collect::<Vec<_>>().join("|"));
         out.begin(&case);
         let q = question(2);
@@ -1144,7 +1285,7 @@ fn part_dgram_stream(out: &mut Out, r: &mut Rng, a: &Args) {
         out.oracle_case(&case, true, "dgram_stream");
         out.check(!res.panicked, "panic_transport", &case, "a transport task panicked");
         // did an answering TC reply arrive inside the window of an attempt that was made?
-        let udp_tc = attempts.iter().take(res.udp_sent.len()).any(|at| at.pkts.iter().any(|p| p.v == b'T' && p.off < timeout));
+        let udp_tc = attempts.iter().take(res.udp_sent.len()).any(|at| at.pkts.iter().any(|p| (p.v == b'T' || p.v == b'K') && p.off < timeout));
         match &res.res {
             None => out.check(false, "never_completes", &case, "no completion within 60 s of virtual time"),
             Some(Ok(m)) => {
@@ -1157,7 +1298,7 @@ fn part_dgram_stream(out: &mut Out, r: &mut Rng, a: &Args) {
                 if tcp_mode == b'G' { out.check(!(h.tc && !h.aa), "tc_not_retried", &case, "a truncated datagram answer was handed to the caller although a stream was available"); }
             }
             Some(Err(_)) => {
-                if tcp_mode == b'G' && udp_tc && attempts.iter().take(res.udp_sent.len()).all(|at| at.pkts.iter().all(|p| p.v == b'T' || !variant_answers(p.v) || p.off >= timeout)) {
+                if tcp_mode == b'G' && udp_tc && attempts.iter().take(res.udp_sent.len()).all(|at| at.pkts.iter().all(|p| p.v == b'T' || p.v == b'K' || !variant_answers(p.v) || p.off >= timeout)) {
                     // the only acceptable datagram answers were truncated and the stream peer answers: an error is not expected
                     out.check(!res.tcp_seen.is_empty(), "tc_not_retried", &case, "truncated datagram answer, stream available, but no request was sent over the stream");
                 }
@@ -1246,6 +1387,7 @@ fn main() {
     if want("dgram") { part_dgram(&mut out, &mut r, &a); }
     let (mut okd, mut errd) = (0, 0);
     if want("stream") { let x = part_stream(&mut out, &mut r, &a); okd = x.0; errd = x.1; }
+    if want("demux") { part_demux(&mut out, &mut r, &a); }
     if want("dgram_stream") { part_dgram_stream(&mut out, &mut r, &a); }
     if want("selection") { part_selection(&mut out, &mut r, &a); }
     out.finish(&[("stream_ok_deliveries", format!("{}", okd)), ("stream_error_completions", format!("{}", errd))]);
